@@ -415,3 +415,15 @@ package node
 //@   ensures [accepted_process] result == nil && to.Node == n.name && n.creation > 0 && !smHas(procByAlias(n, to).metas, any(to)) ==> smHas(n.aliases, any(to)) && (pushed(prioQueue(procByAlias(n, to), options.Priority)) == old(pushed(prioQueue(procByAlias(n, to), options.Priority))) + 1 && woken(procByAlias(n, to)) == old(woken(procByAlias(n, to))) + 1 || procByAlias(n, to).fallback.Enable)
 //@   ensures [refused_nothing_pushed] result != nil && to.Node == n.name ==> (forall q lib.QueueMPSC :: pushed(q) == old(pushed(q))) && (forall x *process :: woken(x) == old(woken(x))) && (forall m *meta :: mwoken(m) == old(mwoken(m)))
 //@   ensures [unknown_alias] n.creation > 0 && to.Node == n.name && !smHas(n.aliases, any(to)) ==> result == gen.ErrProcessUnknown
+
+// C19: process.Forward hands the very same mailbox message object to the worker's queue (sender and
+// request reference untouched), wakes the worker, and reports failure without touching any queue.
+//@ spec func nodeOf(p *process) *node = p.node
+//@ func (p *process) Forward
+//@   props C19 C02
+//@   requires [tables] p.node != nil && processesWF(p.node) && (forall k any :: smHas(p.node.processes, k) ==> mailboxWF(smVal(p.node.processes, k).(*process)))
+//@   at call Push assert [same_object] arg0 == any(message)
+//@   ensures [accepted] result == nil ==> smHas(p.node.processes, any(to)) && pushed(prioQueue(procOf(p.node, to), priority)) == old(pushed(prioQueue(procOf(p.node, to), priority))) + 1 && woken(procOf(p.node, to)) == old(woken(procOf(p.node, to))) + 1
+//@   ensures [refused_nothing_pushed] result != nil ==> (forall q lib.QueueMPSC :: pushed(q) == old(pushed(q))) && (forall x *process :: woken(x) == old(woken(x)))
+//@   ensures [message_untouched] message != nil ==> message.From == old(message.From) && message.Ref == old(message.Ref) && message.Message == old(message.Message) && message.Type == old(message.Type)
+//@   ensures [unknown_worker] !smHas(p.node.processes, any(to)) ==> result == gen.ErrProcessUnknown
